@@ -26,7 +26,7 @@ type VerifBlend struct {
 }
 
 // VerifShape is one node of a reified shape.  Kind names the constructor ("Sphere", "Box3D",
-// "Transform3", ..., "Mesh2", "Cache2", "Opaque2", "Opaque3"); F and N hold the recovered
+// "Transform3", ..., "Screw", "Mesh2", "Cache2", "Opaque2", "Opaque3"); F and N hold the recovered
 // constructor arguments in the order of the public constructor (matrices row major); Exact is
 // false when an argument had to be recomputed with rounding (an inverted matrix, a re-added
 // rounding radius, a probed closure).  Shared sub-shapes are shared nodes (same ID).
@@ -394,6 +394,13 @@ func (d *verifDumper) dump3(s SDF3) *VerifShape {
 		n.Kind, n.F, n.Kids = "Offset3", []float64{x.offset}, []*VerifShape{d.dump3(x.sdf)}
 	case *ShellSDF3:
 		n.Kind, n.F, n.Kids = "Shell3", []float64{2 * x.delta}, []*VerifShape{d.dump3(x.sdf)}
+	case *ScrewSDF3:
+		// length is stored halved, lead = -pitch * starts
+		starts := int(math.Round(-x.lead / x.pitch))
+		if -x.pitch*float64(starts) != x.lead {
+			return d.opaque3(n, "Screw3D: number of starts not recoverable from lead and pitch")
+		}
+		n.Kind, n.F, n.N, n.Kids = "Screw", []float64{2 * x.length, x.taper, x.pitch}, []int{starts}, []*VerifShape{d.dump2(x.thread)}
 	default:
 		return d.opaque3(n, "no model of "+n.GoType)
 	}
